@@ -83,15 +83,15 @@ TEXT = {
         "Byte-exact agreement with SLIP-0010 on the three real curves comes from the correspondence run against Lean implementations of the primitives.",
    note="Trusted: Lean kernel; extractor+harness; HMAC/SHA/RIPEMD, crypto/elliptic P-256, filippo edwards25519 (parameters in theorems; Lean oracles in the driver). Non-termination of the retry loops is modelled by fuel. F4 and F5 were found by this check and fixed in /repo."),
  "C08": dict(ref="DESIGN.md §5 C02/C08",
-   technique="Lean 4 proof over an abstract cyclic group (Mathlib addOrderOf): private and public shift are both invalid or both succeed with matching results; same HMAC input and fingerprint on both sides; differential correspondence on both real curves at all algebraic corner cases",
-   text="partial (group assumed): for any curve operations that are the operations of a cyclic group of order n generated by the base point, every 0<k<n and every shift: PrivateKey.Shift and PublicKey.Shift both report ErrInvalidKey exactly when shift >= n or k+shift = 0 mod n, "
-        "else both succeed and point(shifted private) = shifted public; for non-hardened indices both sides feed HMAC the same input, hence the same candidate sequence, chain code and fingerprint. For secp256k1 the group-law hypothesis on Add/ScalarBaseMult is theorem C17 (given the group order).",
-   note="Trusted: Lean kernel, Mathlib; that <G> has order n on secp256k1 and P-256 and crypto/elliptic's P-256 are assumed; byte-level agreement and absence of panics at shift 0, k, n-k are observed by correspondence (F6 fixed the panics)."),
+   technique="Lean 4 proof over an abstract cyclic group (Mathlib addOrderOf): private and public shift are both invalid or both succeed with matching results; same HMAC input and fingerprint on both sides; the group hypothesis discharged for secp256k1 (C17 group law + Pratt-certificate primality of N + kernel-evaluated [N]G = 0); differential correspondence on both real curves at all algebraic corner cases",
+   text="secp256k1: unconditional (LawfulW is proved for the curve whose operations run the C17 model: group law, N prime, ord(G) = N); P-256: partial (group assumed). For any curve operations that are the operations of a cyclic group of order n generated by the base point, every 0<k<n and every shift: PrivateKey.Shift and PublicKey.Shift both report ErrInvalidKey exactly when shift >= n or k+shift = 0 mod n, "
+        "else both succeed and point(shifted private) = shifted public; for non-hardened indices both sides feed HMAC the same input, hence the same candidate sequence, chain code and fingerprint. ",
+   note="Trusted: Lean kernel, Mathlib; for P-256 that crypto/elliptic implements a cyclic group of order n is assumed; byte-level agreement and absence of panics at shift 0, k, n-k are observed by correspondence (F6 fixed the panics)."),
  "C17": dict(ref="DESIGN.md §5 C17",
    technique="Lean 4 + Mathlib proof: extended-Euclid inverse, ring-hom of the big.Int code into ZMod P, Jacobian add-2007-bl/dbl-2009-l incl. all special cases = Mathlib's Weierstrass group law, double-and-add = nsmul for every byte string; constants and source snapshot regenerated; differential correspondence",
-   text="Lean theorems (only hypothesis: P prime): for all representable points ((0,0) = identity, else reduced on-curve coordinates) Add, Double return the group sum/double of Mathlib's elliptic-curve group, never panic, results reduced and canonical, identity returned exactly as (0,0); "
+   text="Lean theorems with no hypothesis (P prime, N prime and ord(G) = N are themselves proved: Pratt certificates via lucas_primality, [N]G = 0 by kernel evaluation of the model): for all representable points ((0,0) = identity, else reduced on-curve coordinates) Add, Double return the group sum/double of Mathlib's elliptic-curve group, never panic, results reduced and canonical, identity returned exactly as (0,0); "
         "ScalarMult / ScalarBaseMult = (big-endian value of the bytes) • point for EVERY byte string incl. 0, >= n, leading zeros, and every base incl. the identity; IsOnCurve x y iff y^2 = x^3 + 7 in ZMod P; ModInverse never fails on a nonzero z.",
-   note="Trusted: Lean kernel; Mathlib (elliptic-curve group law); primality of P (hypothesis); math/big modelled on Int; extractor+harness. Both copies of secp256k1.go are required to be byte-identical by the tie. F6 was found by this check and fixed in /repo."),
+   note="Trusted: Lean kernel; Mathlib (elliptic-curve group law, lucas_primality); math/big modelled on Int; extractor+harness. Both copies of secp256k1.go are required to be byte-identical by the tie. F6 was found by this check and fixed in /repo."),
  "C13": dict(ref="DESIGN.md §5 C13",
    technique="Lean 4 proof over a labelled transition system of one Mine call (main, watcher, W workers, environment cancel; nondeterministic batch outcomes): inductive invariant, ranking function, for every W >= 1 and every interleaving; "
              "tie = regenerated synchronisation skeleton / closure captures / atomic-access lists of both worker.go files; correspondence = replay of recorded real executions (build-tag hooks) through the model; supporting run under the Go race detector",
@@ -118,6 +118,6 @@ TEXT = {
    text="partial (library assumed; uniqueness is a random-oracle statement): Lean theorems for every seed and alpha on which try-and-increment succeeds: Prove yields a proof, Verify accepts its 80-byte encoding for the matching key with Proof.Hash, ProofToHash gives the same hash; for ANY accepted proof the three hash routes agree; "
         "acceptance is characterised (canonical non-small-order key, canonical 80-byte (Gamma,c,s), recomputed challenge = c); non-canonical, undecodable and small-order keys are rejected; decoding succeeds only for strings that re-encode to themselves (s < L, 16-byte c) and every such proof round-trips; isCanonicalY iff y < p; "
         "an accepted proof whose Gamma differs from [x]H by a small-order point yields the honest hash.",
-   note="Trusted: Lean kernel; Mathlib algebra; curve library/SHA-512 (hypotheses Lawful, Cofactor, OrderExact, EncodeCanonical, EncodeDecode, Nat.Prime L); conformance with RFC 9381 rests on the independent Lean implementation agreeing on every op incl. the RFC vectors; full uniqueness (Chaum-Pedersen soundness in the ROM) is not a theorem."),
+   note="Trusted: Lean kernel; Mathlib algebra; curve library/SHA-512 (hypotheses Lawful, Cofactor, OrderExact, EncodeCanonical, EncodeDecode; Nat.Prime L is proved); conformance with RFC 9381 rests on the independent Lean implementation agreeing on every op incl. the RFC vectors; full uniqueness (Chaum-Pedersen soundness in the ROM) is not a theorem."),
 }
 PENDING = {}
